@@ -88,6 +88,13 @@ type Tracing interface {
 	ModelLine(c Case, trace string) string
 }
 
+// OracleOnly streams have no model counterpart: they observe runtime behaviour the model cannot
+// exhibit (wall-clock bounds, the kernel's listen queue, TLS handshakes) and are decided by the
+// direct oracle alone.
+type OracleOnly interface {
+	NoModel() bool
+}
+
 // lastPanicKey is set by safely() when the implementation panics.
 var lastPanicKey string
 
@@ -216,9 +223,18 @@ func runStream(s Stream, property string, seed int64, n int, thorough bool, gmod
 			lines[i] = tr.ModelLine(c, trace)
 		}
 	}
-	models, err := runModel(gmodel, lines)
-	if err != nil {
-		return nil, err
+	var models []string
+	if _, ok := s.(OracleOnly); ok {
+		models = make([]string, len(lines))
+		for i := range models {
+			models[i] = "unmodelled"
+		}
+	} else {
+		var err error
+		models, err = runModel(gmodel, lines)
+		if err != nil {
+			return nil, err
+		}
 	}
 	distinct := map[string]bool{}
 	for i, c := range cases {
